@@ -931,12 +931,12 @@ def judge_c03(ctx, ex):
 
 
 def _c03_class(st, flags):
-    if "ref-tie" in st["tags"]:
-        return "STAGE-ref-tie"
-    if "iri+bnode" in st["tags"]:
-        return "STAGE-nonliteral-merge-figures"
     if not flags["keep_less_specific"]:
         return "STAGE-keep-less-specific-off"
+    if "ref-tie" in st["tags"] or "mixed-typed-values" in st["tags"]:
+        return "STAGE-ref-chosen-on-tie"
+    if "iri+bnode" in st["tags"]:
+        return "STAGE-nonliteral-merge-figures"
     return None
 
 
